@@ -404,6 +404,12 @@ class Frame:
                 return self.eval(args[0])
             if not args and strip_targs(n.get("crec") or "") in ("std::vector", "std::list"):
                 return []
+            if strip_targs(n.get("crec") or "") == "std::vector" and len(args) in (1, 2, 3) and not n.get("copy"):
+                # vector(n), vector(n, value[, allocator])
+                a0 = self.eval(args[0])
+                if isinstance(a0, int) and not isinstance(a0, bool):
+                    fill_ = self.eval(args[1]) if len(args) >= 2 and self.nodes[args[1]]["k"] != "defarg" else (self.eval(args[1]) if len(args) >= 2 and "allocator" not in (self.nodes[args[1]].get("t") or "") else 0)
+                    return [fill_] * a0
             if not args and strip_targs(n.get("crec") or "") == "std::basic_string":
                 return ""
             if not args and strip_targs(n.get("crec") or "") == "std::map":
@@ -425,6 +431,22 @@ class Frame:
         if k == "call":
             return self.call(i, n)
         self.bad(i, "node kind " + k)
+
+    def _peek_closure(self, i):
+        n = self.nodes[i]
+        for _ in range(4):
+            if n["k"] == "construct" and n.get("args"):
+                n = self.nodes[n["args"][0]]
+            elif n["k"] == "cast":
+                n = self.nodes[n["sub"]]
+            else:
+                break
+        if n["k"] == "call" and n.get("lambda"):
+            fn = self.ip.db.fns.get(n.get("cm"))
+            return Closure(fn, self) if fn is not None else None
+        if n["k"] == "ref" and n.get("dk") in ("local", "param") and isinstance(self.env.get(n["d"]), Closure):
+            return self.env[n["d"]]
+        return None
 
     def binop(self, i, op, a, b):
         if op == "+" and isinstance(a, list) and isinstance(b, int):
@@ -473,6 +495,11 @@ class Frame:
 
     # ------------------------------------------------------------------ calls
     def call(self, i, n):
+        if n.get("lambda"):
+            fn = self.ip.db.fns.get(n.get("cm"))
+            if fn is None or fn.body is None or fn.body < 0:
+                self.bad(i, "closure without an analysable body")
+            return Closure(fn, self)
         ck = n.get("ck")
         cn = strip_targs(n.get("cname") or "")
         short = cn.split("::")[-1]
@@ -624,6 +651,13 @@ class Frame:
                 return max(a, b) if cn.endswith("max") else min(a, b)
             if cn == "std::accumulate" and len(args) in (3, 4):
                 b, e, acc = self.eval(args[0]), self.eval(args[1]), self.eval(args[2])
+                if len(args) == 4 and isinstance(self._peek_closure(args[3]), Closure):
+                    fcl = self._peek_closure(args[3])
+                    if not (isinstance(b, ListIter) and isinstance(e, ListIter) and b.lst is e.lst and 0 <= b.pos <= e.pos <= len(b.lst)):
+                        self.bad(i, "accumulate over something else than one sequence")
+                    for x in b.lst[b.pos:e.pos]:
+                        acc = fcl(acc, x)
+                    return acc
                 if len(args) == 4:
                     fo = self.nodes[args[3]]
                     while fo["k"] in ("cast", "defarg") or (fo["k"] == "construct" and fo.get("copy") and len(fo.get("args", [])) == 1):
@@ -640,6 +674,33 @@ class Frame:
                 if not (isinstance(b, ListIter) and isinstance(e, ListIter) and b.lst is e.lst and 0 <= b.pos <= e.pos <= len(b.lst)):
                     self.bad(i, "count over something else than one sequence")
                 return sum(1 for x in b.lst[b.pos:e.pos] if x == v)
+            if cn in ("std::any_of", "std::all_of", "std::none_of", "std::count_if", "std::for_each", "std::find_if") and len(args) == 3:
+                b, e, fcl = self.eval(args[0]), self.eval(args[1]), self.eval(args[2])
+                if isinstance(b, list):
+                    b = ListIter(b, 0)
+                if isinstance(b, Ptr):
+                    b = ListIter(b.lst, b.off)
+                if isinstance(e, Ptr):
+                    e = ListIter(e.lst, e.off)
+                if not (isinstance(b, ListIter) and isinstance(e, ListIter) and b.lst is e.lst and 0 <= b.pos <= e.pos <= len(b.lst) and isinstance(fcl, Closure)):
+                    self.bad(i, "%s over something else than one sequence with a closure" % cn)
+                seq = b.lst[b.pos:e.pos]
+                if cn == "std::any_of":
+                    return any(truthy(fcl(x)) for x in seq)
+                if cn == "std::all_of":
+                    return all(truthy(fcl(x)) for x in seq)
+                if cn == "std::none_of":
+                    return not any(truthy(fcl(x)) for x in seq)
+                if cn == "std::count_if":
+                    return sum(1 for x in seq if truthy(fcl(x)))
+                if cn == "std::find_if":
+                    for k_, x in enumerate(seq):
+                        if truthy(fcl(x)):
+                            return ListIter(b.lst, b.pos + k_)
+                    return ListIter(b.lst, e.pos)
+                for x in seq:
+                    fcl(x)
+                return fcl
             if cn in ("boost::tuples::make_tuple", "boost::make_tuple", "std::make_tuple"):
                 return tuple(self.eval(a) for a in args)
             if cn == "std::make_pair" and len(args) == 2:
@@ -657,6 +718,38 @@ class Frame:
                 self.bad(i, "function %s has no analysable body" % cn)
             return self.ip.call_fn(fn, [self.eval(a) for a in args])
         self.bad(i, "call kind %s" % ck)
+
+
+class Closure:
+    """a lambda: its call operator and the frame it was created in (captured variables keep the declaration ids of that
+    frame, so the body is run on the same environment plus its own parameters)"""
+    def __init__(self, fn, frame):
+        self.fn, self.frame = fn, frame
+
+    def __call__(self, *args):
+        fn = self.fn
+        if len(args) != len(fn.params):
+            raise AnalysisBroken("summ: closure called with %d arguments" % len(args))
+        env = self.frame.env
+        saved = {p["d"]: env.get(p["d"], _MISSING) for p in fn.params}
+        for p, a in zip(fn.params, args):
+            env[p["d"]] = a
+        fr = Frame(self.frame.ip, fn, env, self.frame.this)
+        try:
+            fr.exec(fn.body)
+            r = None
+        except _Return as r_:
+            r = r_.v
+        finally:
+            for d_, v_ in saved.items():
+                if v_ is _MISSING:
+                    env.pop(d_, None)
+                else:
+                    env[d_] = v_
+        return r
+
+
+_MISSING = object()
 
 
 class _Break(Exception):
